@@ -291,6 +291,9 @@ def valid_region(prog: Program) -> dict:
     return bounds
 
 
+from .program import expand_locals  # noqa: E402
+
+
 def grid_2d_arrays(prog: Program) -> dict[str, tuple[str, str]]:
     """Grid attributes read as 2-D blocks `ncid.variables[...][self.<J>, self.<I>]` -> (yslice, xslice)."""
     fi = prog.role_func("grid", "__init__")
@@ -301,7 +304,7 @@ def grid_2d_arrays(prog: Program) -> dict[str, tuple[str, str]]:
             if not (isinstance(t, ast.Attribute) and unparse(t.value) == "self") or n.value is None:
                 continue
             for sub in ast.walk(n.value):
-                if isinstance(sub, ast.Subscript) and isinstance(sub.slice, ast.Tuple) and len(sub.slice.elts) == 2 and isinstance(sub.value, ast.Subscript) and unparse(sub.value.value).endswith(".variables"):
+                if isinstance(sub, ast.Subscript) and isinstance(sub.slice, ast.Tuple) and len(sub.slice.elts) == 2 and isinstance(sub.value, ast.Subscript) and unparse(expand_locals(sub.value.value, fi.node)).endswith(".variables"):  # `ncvars = ncid.variables` read through
                     a, b = unparse(sub.slice.elts[0]), unparse(sub.slice.elts[1])
                     if a.startswith("self.") and b.startswith("self."):
                         out[t.attr] = (a[5:], b[5:])
